@@ -133,3 +133,63 @@ def rectangular(scenario):
         "tableHeader" in scenario["examples"][e],
         forall(len(scenario["examples"][e]["tableBody"]), lambda r:
                len(scenario["examples"][e]["tableBody"][r]["cells"]) >= len(scenario["examples"][e]["tableHeader"]["cells"]))))
+
+
+# ---- plain scenarios, rules, features: content of all pickles in document order (ids left empty) ---------------
+def plain_pstep_c(allsteps, j):
+    return spec_pstep(allsteps[j], eff_type(allsteps, j + 1), "", seq_empty(Str), allsteps[j]["text"],
+                      seq_empty("parser_types.Cell"), seq_empty("parser_types.Cell"))
+
+
+def plain_pickle(scenario, inherited_tags, background_steps, uri, language):
+    return {"astNodeIds": [scenario["id"]], "id": "", "tags": pickle_tags(inherited_tags + scenario["tags"]),
+            "name": scenario["name"], "language": language,
+            "steps": seq_mapi(scenario_steps(background_steps, scenario), lambda s, j: plain_pstep_c(
+                scenario_steps(background_steps, scenario), j)),
+            "uri": uri}
+
+
+def scenario_pickles(scenario, inherited_tags, background_steps, uri, language):
+    # a scenario without examples yields exactly one pickle; an outline one per example row
+    return ((seq_empty("Pickle") + [plain_pickle(scenario, inherited_tags, background_steps, uri, language)])
+            if len(scenario["examples"]) == 0
+            else outline_flat(len(scenario["examples"]), scenario, inherited_tags, background_steps, uri, language))
+
+
+def rule_step(S, child, i, uri, tags, language):
+    # state: (pickles so far, background steps in scope): a background child extends the scope for what follows
+    return ((S[0], S[1] + child["background"]["steps"]) if "background" in child
+            else (S[0] + scenario_pickles(child["scenario"], tags, S[1], uri, language), S[1]))
+
+
+def rule_flat(rule, n, feature_background_steps, tags, uri, language):
+    return fold_prefix(rule["children"], n, (seq_empty("Pickle"), feature_background_steps), rule_step, uri, tags, language)
+
+
+def rule_wf(rule):
+    return forall(len(rule["children"]), lambda c: ("background" in rule["children"][c] or "scenario" in rule["children"][c])
+                  and implies("scenario" in rule["children"][c] and not ("background" in rule["children"][c]),
+                              rectangular(rule["children"][c]["scenario"])))
+
+
+def feature_step(S, child, i, uri, ftags, language):
+    return ((S[0], S[1] + child["background"]["steps"]) if "background" in child
+            else ((S[0] + rule_flat(child["rule"], len(child["rule"]["children"]), S[1], ftags + child["rule"]["tags"],
+                                    uri, language)[0], S[1]) if "rule" in child
+                  else (S[0] + scenario_pickles(child["scenario"], ftags, S[1], uri, language), S[1])))
+
+
+def feature_flat(feature, n, uri):
+    return fold_prefix(feature["children"], n, (seq_empty("Pickle"), seq_empty("Step")), feature_step, uri,
+                       feature["tags"], feature["language"])
+
+
+def feature_wf(feature):
+    return forall(len(feature["children"]), lambda c:
+                  ("background" in feature["children"][c] or "rule" in feature["children"][c]
+                   or "scenario" in feature["children"][c])
+                  and implies("rule" in feature["children"][c] and not ("background" in feature["children"][c]),
+                              rule_wf(feature["children"][c]["rule"]))
+                  and implies("scenario" in feature["children"][c] and not ("background" in feature["children"][c])
+                              and not ("rule" in feature["children"][c]),
+                              rectangular(feature["children"][c]["scenario"])))
